@@ -881,6 +881,9 @@ def call_external(ip, q, args, kw):
         mod, _, fn = q.rpartition(".")
         return _native_call(getattr(importlib.import_module(mod), fn), args, kw)
     if q.startswith("absl.logging.") or q.startswith("logging."):
+        # no effect on the computation; recorded in the ghost call log (a clause may require
+        # that a warning was emitted)
+        ip.call_log.setdefault(q, []).append(I.NS(args=I.NS(args=tuple(args)), result=None))
         return None
     if q.startswith("typing."):
         return None
